@@ -28,7 +28,13 @@ def params_for(rng, quick):
                 varint_w=rng.choice([None, None, 2, 4, 8]), cid_switch=rng.random() < 0.4, ipv=rng.choice([4, 6]),
                 ch_pad=rng.choice([0, 60, 300]), tp_grease=rng.random() < 0.2,
                 l2=rng.choice([{}, {}, {}, {"ip6_ext": 1}, {"ip4_opts": 1}, {"eth_pad": 1}, {"eth_fcs": 1}]),
-                init_token=rng.choice([0, 0, 5, 37]), len_width=rng.choice([None, 2, 4, 8]))
+                init_token=rng.choice([0, 0, 5, 37]), len_width=rng.choice([None, 2, 4, 8]),
+                migrate_at=rng.choice([None, None, None, 5, 7]), ts_equal=rng.random() < 0.25, own_noise=rng.random() < 0.25)
+
+
+def _sublist(a, b):
+    it = iter(b)
+    return all(any(x == y for y in it) for x in a)
 
 
 def _one(job):
@@ -54,6 +60,15 @@ def _one(job):
             noise = any(p["t"] == "N" for dg in b["hist"] for p in dg["pkts"])
             if g2 == pred and pred != truth and noise:
                 deviation = True        # documented deviation (Quic.tla NoiseDatagram, phase "flip"): model and code agree that the direction goes dark
+            elif b["kf"] and b["zrtt"] and pred != truth and [x for x in g2 if x[0] == "s"] == [x for x in pred if x[0] == "s"] and \
+                    _sublist(g2, pred) and g2 != pred:
+                # KF_EarlySuiteGuess, wider consequence: the mis-guessed suite also selects the header-protection cipher of the 0-RTT packet, so a
+                # garbage packet number enters the application-data space (shared with 1-RTT) before anything is authenticated; the client's
+                # later 1-RTT packets may then be reconstructed wrongly and lost as well.  Which of them survive depends on the garbage
+                # value: every order-preserving sub-list of the model's prediction with the server direction intact is this finding.
+                as_predicted = True
+                ok, why = False, ("0-RTT stream data is not exported (early keys from the first offered suite) and client 1-RTT data after it "
+                                  "is lost too: the mis-protected 0-RTT packet polluted the shared application packet-number space")
             elif g2 == pred and pred != truth:
                 # the implementation-shaped model predicts a deviation from the contract here (named deviation taken)
                 as_predicted = True
@@ -129,6 +144,11 @@ def run(chk):
         if sns != sorted(sns):          # a delayed datagram: its sender chose the pn encoding for the window it knew
             p["pn_gaps"] = rng.choice([None, "small"])
             p["pnlen"] = {"c": max(2, p["pnlen"]["c"]), "s": max(2, p["pnlen"]["s"])}
+        if b["kf"] or any(f["ft"] == "noise" and f["a"] == "flip" for dg in b["hist"] for pk in dg["pkts"] for f in pk["frames"]):
+            # worlds in which the MODEL predicts a loss (known finding, documented deviation) are compared for equality with that prediction:
+            # dimensions the model does not carry (which CID a side switches to after a NEW_CONNECTION_ID it may have lost, rebinding,
+            # further noise) stay at their defaults there
+            p.update(cid_switch=False, migrate_at=None, own_noise=False, ts_equal=False)
         return p
     jobs = [(b, rng.randrange(1 << 30), params(b), rng.choice([[], [], ["-m"], ["-m", "443:9443"]])) for b in behs]
     results = pool_map(_one, jobs)
